@@ -45,6 +45,13 @@ def build(sp, b, n):
         env = {"T": eval(nested(sp, rel, to))}
         exec(src, env)
         f = env["f"]
+        if n % 5 == 3:
+            # named parameters, variables DECLARED in the scope's order (not the parameters'), bound by name (f_kwargs)
+            return R.NAryFunctionRelation(f, [sp.vars[v] for v in sc], name="p", f_kwargs=True)
+        if n % 5 == 4:
+            # the same with an ExpressionFunction (what function_from_str gives), declared in the scope's order
+            return R.NAryFunctionRelation(ExpressionFunction(nested(sp, rel, to) + "".join("[%s]" % v for v in to)),
+                                          [sp.vars[v] for v in sc], name="p", f_kwargs=True)
         if n % 3 == 0:
             return R.NAryFunctionRelation(f, [sp.vars[v] for v in to], name="p")
         if n % 3 == 1:
